@@ -8,6 +8,8 @@ import (
 	"context"
 	"fmt"
 	"os"
+	"path/filepath"
+	"strings"
 	"syscall"
 	"time"
 
@@ -132,6 +134,89 @@ func runC27(c *ctx) {
 		}
 		if len(out) > 0 {
 			c.r.Add(Finding{Kind: "violation", Check: "output-captured", Detail: fmt.Sprintf("%d bytes were written to stdout/stderr with no logger configured: %q", len(out), trunc(string(out), 300)), Replay: map[string]any{"scenario": scenario, "seed": c.seed}})
+		}
+	}
+	c27FileSystem(c, r)
+}
+
+// c27FileSystem: the filesystem store as DataStore and MetaStore over a directory that also holds damaged
+// files of every kind the scan has to skip (bit rot inside the footer metadata, truncation, a foreign file,
+// an empty reservation, a leftover temp file), plus failed flushes and a merge.
+func c27FileSystem(c *ctx, r Rng) {
+	for i := 0; i < 3*c.scale; i++ {
+		scenario := fmt.Sprintf("filesystem-%d", i)
+		capt, err := startCapture()
+		if err != nil {
+			fatal("capture: %v", err)
+		}
+		failures := 0
+		func() {
+			dir, err := os.MkdirTemp("", "bs27")
+			if err != nil {
+				fatal("tempdir: %v", err)
+			}
+			defer os.RemoveAll(dir)
+			fs := bs.NewFileSystemDataStore(dir)
+			ffs := &failingFS{FileSystemDataStore: fs}
+			cfg := bs.DefaultBloomSearchEngineConfig()
+			cfg.PartitionFunc = partitionFunc("p")
+			cfg.MaxBufferedTime = time.Hour
+			eng, err := bs.NewBloomSearchEngine(cfg, fs, ffs)
+			if err != nil {
+				fatal("engine: %v", err)
+			}
+			eng.Start()
+			ingest := func(id int, failAt int) {
+				ffs.failAt = failAt
+				done := make(chan error, 1)
+				eng.IngestRows(context.Background(), []map[string]any{{"_id": id, "p": "a", "msg": "hello world"}}, done)
+				eng.Flush(context.Background())
+				if e := <-done; e != nil {
+					failures++
+				}
+				ffs.failAt = 0
+			}
+			ingest(1, 0)
+			ingest(2, 0)
+			ingest(3, 1+r.IntN(6))
+			ents, _ := os.ReadDir(dir)
+			for _, e := range ents {
+				if !strings.HasSuffix(e.Name(), ".dat") {
+					continue
+				}
+				data, _ := os.ReadFile(filepath.Join(dir, e.Name()))
+				if len(data) < 40 {
+					continue
+				}
+				// bit rot inside the metadata (CRC mismatch with a well-formed footer)
+				rot := append([]byte(nil), data...)
+				rot[len(rot)-30-r.IntN(40)] ^= 0x10
+				os.WriteFile(filepath.Join(dir, "rot-"+e.Name()), rot, 0o600)
+				os.WriteFile(filepath.Join(dir, "cut-"+e.Name()), data[:len(data)/2], 0o600)
+				break
+			}
+			os.WriteFile(filepath.Join(dir, "foreign.dat"), []byte("not a bloom file at all, just text that is long enough to have a footer"), 0o600)
+			os.WriteFile(filepath.Join(dir, "empty.dat"), nil, 0o600)
+			os.WriteFile(filepath.Join(dir, "left.tmp"), []byte("partial"), 0o600)
+			failures++
+			for _, q := range []*bs.Query{{}, bs.NewQuery().Token("hello").Build(), bs.NewQuery().FieldRegex("msg", "wor").Build()} {
+				if out := RunQuery(eng, q); out.Err != nil {
+					failures++
+				}
+			}
+			if _, err := eng.Merge(context.Background()); err != nil {
+				failures++
+			}
+			RunQuery(eng, &bs.Query{})
+			ctx, cancel := context.WithTimeout(context.Background(), 5*time.Second)
+			eng.Stop(ctx)
+			cancel()
+		}()
+		out := capt.stop()
+		c.r.Case(failures > 0, scenario)
+		c.r.Hit("c27.filesystem")
+		if len(out) > 0 {
+			c.r.Add(Finding{Kind: "violation", Check: "output-captured", Detail: fmt.Sprintf("%d bytes were written to stdout/stderr with no logger configured (filesystem store over a directory with damaged files): %q", len(out), trunc(string(out), 300)), Replay: map[string]any{"scenario": scenario, "seed": c.seed}})
 		}
 	}
 }
